@@ -306,6 +306,8 @@ def _dispatch_shape(value: T, evs: T) -> bool:
     H = T("attr", (SELF, "handlers"))
     first_id = T("attr", (T("sub", (evs, const(0))), "eventid"))
     names = [T("sub", (tc, first_id))] + [T("call", (T("attr", (tc, "get")), (first_id,) + d, ())) for d in ((), (const(None),))]
+    names += [x for x in sym.walk(value) if x.op == "call" and x.a[0] == T("attr", (tc, "get")) and len(x.a[1]) == 2
+              and x.a[1][0] == first_id and x.a[1][1].op == "global" and x.a[1][1].a[0].startswith("pykdebugparser.")]
     for name in names:
         for h in [T("sub", (H, name))] + [T("call", (T("attr", (H, "get")), (name,) + d, ())) for d in ((), (const(None),))]:
             if value == T("call", (h, (SELF, evs), ())):
